@@ -139,9 +139,19 @@ class G:
                 no += 10
         body_start = no
         pending_next = []
+        for_lines = {}
+        guards = 0
         for _ in range(size):
             k = r.weighted([("simple", 40), ("multi", 15), ("if", 20), ("for", 12 if len(pending_next) < 2 else 0), ("next", 10 if pending_next else 0),
-                            ("data", 3)])
+                            ("data", 3), ("backjump", 5 if pending_next and guards < 2 else 0)])
+            if k == "backjump":
+                # leave the loop nest through a guarded GOTO back to an enclosing FOR (once): the loops inside it are abandoned
+                g = "G%d" % guards
+                guards += 1
+                target = for_lines[r.choice(pending_next)]
+                lines.append([no, [("if", ("bin", "=", ("var", g), ("num", "0")), ("stmt", ("let", g, [], ("num", "1"))), None), ("goto", target)]])
+                no += 10
+                continue
             if k == "simple":
                 lines.append([no, [self.simple()]])
             elif k == "multi":
@@ -176,6 +186,7 @@ class G:
                     stmts.append(self.simple())
                 lines.append([no, stmts])
                 pending_next.append(v)
+                for_lines[v] = no
             else:
                 v = pending_next.pop() if r.chance(0.85) else pending_next.pop(0)       # sometimes NEXT of the OUTER loop: forgets inner ones
                 lines.append([no, [("next", v)] + ([self.simple()] if r.chance(0.2) else [])])
@@ -387,6 +398,13 @@ FIXED = [
      [20, [("if", ("num", "0"), ("stmt", ("print", [("e", ("str", "T"))])), ("stmt", ("print", [("e", ("str", "E"))]))), ("print", [("e", ("str", "AFTER"))])]],
      [30, [("if", ("num", "0"), ("stmt", ("print", [("e", ("str", "T"))])), None), ("print", [("e", ("str", "SKIPPED"))])]], [40, [("end",)]],
      [100, [("print", [("e", ("str", "SUB"))]), ("return",)]]],
+    # re-entering an outer FOR from inside an inner loop abandons the inner loop: its NEXT then has no FOR
+    [[10, [("for", "I", ("num", "1"), ("num", "2"), None)]], [20, [("if", ("bin", "=", ("var", "K"), ("num", "1")), ("line", 50), None)]],
+     [30, [("for", "J", ("num", "1"), ("num", "2"), None)]], [40, [("let", "K", [], ("num", "1")), ("goto", 10)]],
+     [50, [("print", [("e", ("str", "BEFORE"))])]], [60, [("next", "J")]], [70, [("print", [("e", ("str", "NOT REACHED"))])]]],
+    [[10, [("for", "I", ("num", "1"), ("num", "3"), None)]], [20, [("for", "J", ("num", "1"), ("num", "2"), None)]], [30, [("for", "L", ("num", "1"), ("num", "2"), None)]],
+     [40, [("if", ("bin", "=", ("var", "G0"), ("num", "0")), ("stmt", ("let", "G0", [], ("num", "1"))), None), ("goto", 20)]],
+     [50, [("print", [("e", ("var", "I")), (";",), ("e", ("var", "J")), (";",), ("e", ("var", "L"))])]], [60, [("next", "L")]], [70, [("next", "J")]], [80, [("next", "I")]]],
     # 3-dimensional strides and DIM bounds
     [[10, [("dim", "Q", [("num", "1"), ("num", "2"), ("num", "3")])]], [20, [("let", "Q", [("num", "1"), ("num", "2"), ("num", "3")], ("num", "7")), ("let", "Q", [("num", "0"), ("num", "1"), ("num", "0")], ("num", "5"))]],
      [30, [("print", [("e", ("cell", "Q", [("num", "1"), ("num", "2"), ("num", "3")])), (";",), ("e", ("cell", "Q", [("num", "0"), ("num", "1"), ("num", "0")])), (";",), ("e", ("cell", "Q", [("num", "1"), ("num", "0"), ("num", "0")]))])]],
